@@ -56,3 +56,35 @@ def for_c16(events: list, tid0: int) -> list:
     return [{"tid": tid0 + i, "label": json.dumps({"repository-test": e["test"]}), "other": "repository_test", "class": "grey",
              "devs": [], "cmd": " ".join(e["args"])[:200], "exit": e["exit"], "crashed": bool(e["crash"]), "namesFile": False,
              "mustFlag": False, "readProblem": False, "tail": (e["crash"] or e["out"])[-200:]} for i, e in enumerate(events)]
+
+
+def collect_api(ctx: core.Ctx) -> list:
+    """Every AnnotationsItem.matches(path) call made by the repository's tests (whole suite) -> Trace_C05 events."""
+    work = ctx.scratch / "suite-api"
+    shutil.rmtree(work, ignore_errors=True)
+    work.mkdir()
+    out = work / "calls.ndjson"
+    env = dict(os.environ, REUSE_VERIF_APITRACE=str(out), PYTHONDONTWRITEBYTECODE="1", PYTHONPATH=f"{HERE}:{core.REPO}/src",
+               PYTHONHASHSEED="0")
+    env.pop("REUSE_VERIF_TESTTRACE", None)
+    p = subprocess.run([sys.executable, "-m", "pytest", "-q", "-p", "no:cacheprovider", "-p", "testtrace_plugin",
+                        f"--basetemp={work / 'bt'}", "-o", "addopts=", "tests"],
+                       cwd=core.REPO, env=env, capture_output=True, text=True, timeout=1800)
+    if not out.exists():
+        raise core.MachineryError("the repository's tests recorded no matches() call:\n" + (p.stdout + p.stderr)[-1500:])
+    groups: dict = {}
+    for ln in out.read_text().splitlines():
+        c = json.loads(ln)
+        g = groups.setdefault(json.dumps(c["globs"]), {"globs": c["globs"], "calls": {}, "tests": set()})
+        g["calls"][c["path"]] = c["result"]
+        g["tests"].add(c["test"])
+    events = []
+    for g in groups.values():
+        paths = sorted(g["calls"])
+        events.append({"globs": [list(x) for x in g["globs"]], "paths": [list(x) for x in paths],
+                       "obs": [g["calls"][x] for x in paths], "via": "repository-tests", "impl": [],
+                       "tests": sorted(g["tests"])[:3]})
+    ctx.notes["repository_tests_api"] = {"annotation_items": len(events), "matches_calls": sum(len(e["paths"]) for e in events),
+                                         "pytest_summary": (p.stdout.strip().splitlines() or [""])[-1][:200]}
+    shutil.rmtree(work, ignore_errors=True)
+    return events
